@@ -58,6 +58,10 @@ func init() {
 	reg("R-RWPARITY", "Both RWManager constructors open the file with the same os.OpenFile arguments and size it with the same Truncate call; the interface has four methods.", ruleRWParity)
 	reg("R-SENT", "Value-flow of the skiplist sentinel in ds/zset: values that may be SortedSet.header (the field load, phis of it, elements of arrays that received it, parameters and results that carry it; not loads of forward/backward) never have their payload fields read, are never appended to a result, stored into a link field or the dictionary, or returned from an exported method, unless dominated by a != header test.", ruleSentinel)
 	reg("R-SEGPRED", "Each predicate that decides whether an on-disk segment is searched (range, point, prefix), evaluated from its SSA decision region over every ordering of query and segment bounds in a 7-string universe, selects every segment that can hold a matching key.", ruleSegPred)
+	reg("R-TOMBSTONE-STOPS", "In the cone of Tx.Get a record that is found but dead (delete marker, expired) ends the lookup: the dead side of every such test neither loops on to an older segment, nor calls another lookup, nor returns a nil record to a caller that would then consult an older level.", ruleTombstoneStops)
+	reg("R-READAT-SPEC", "Both RWManager.ReadAt implementations, evaluated from their SSA form on every small combination of region size, offset and buffer length: a read inside the region (including one that ends exactly at its end, and the empty read at the end) returns all bytes with a nil error; a read that runs past the end returns what is there with nil or io.EOF.", ruleReadAtSpec)
+	reg("R-HINTKEY", "Hint.key of a key/value record: the commit-time literal and the replay-time literal hold the same recipe, or (sparse mode, where they differ) no function on a read path of that index loads the field.", ruleHintKey)
+	reg("R-INSERT-TOTAL", "(*BPTree).Insert returns a nil error on every path (interprocedurally): Commit discards that error for records already logged while the replay in Open fails on it.", ruleInsertTotal)
 	reg("R-NEWEST", "Sparse-mode merges are newest-wins: SortFID comparators order by descending fID and the sorted slice is the one searched; the merge map keeps the first occurrence of a key; memory results are appended before disk results.", ruleNewestWins)
 	reg("R-COMMITTED-READ", "Every non-nil entry Get can return is dominated by a committed-transaction test (DB.committedTxIds, ActiveCommittedTxIdsIdx.Find or FindTxIDOnDisk) or produced by a function with that property; the sparse-mode scans consult the committed-transaction index.", ruleCommittedRead)
 	reg("R-COUNT", "Every counter that is compared with an offset/limit parameter in the cone of PrefixScan/PrefixSearchScan is incremented only at points dominated by the tombstone and expiry tests; limits applied to len() use a list of live entries.", ruleCount)
